@@ -183,7 +183,8 @@ func runC28(rc *sk.RunCtx) {
 	if rc.Thorough() {
 		horizon = time.Duration(30+tp.Choose(200)) * time.Second
 	}
-	mw := buildMesh(rc, meshOpts{minNodes: 2, maxNodes: 4, allowLighthouse: true, multiAddr: true, allowP256: true, horizon: horizon})
+	// relay topologies too: relay indexes (hm.Relays) are part of the statement
+	mw := buildMesh(rc, meshOpts{minNodes: 2, maxNodes: 4, allowLighthouse: true, allowRelay: true, multiAddr: true, allowP256: true, horizon: horizon})
 	if rc.Failed() {
 		return
 	}
@@ -213,9 +214,38 @@ func runC28(rc *sk.RunCtx) {
 	extra := 6 + tp.Choose(20)
 	for k := 0; k < extra; k++ {
 		at := time.Second + time.Duration(tp.Choose(int(horizon/time.Millisecond)))*time.Millisecond
-		kind := tp.Choose(4)
+		kind := tp.Choose(5)
 		i := tp.Choose(n)
 		pick := tp.Choose(64)
+		if kind == 4 {
+			// restart storm: the node comes back 6-7 times in quick succession holding only its second address b
+			// and dials an observer each time (the observer keeps the older tunnels for b for a while), then once
+			// more with a certificate {a, b} in which b is not the first address
+			j := (i + 1 + pick%max(1, n-1)) % n
+			if j == i {
+				continue
+			}
+			b := overlayAddr(i, 1)
+			rounds := 6 + pick%2
+			for s := 0; s <= rounds; s++ {
+				last := s == rounds
+				mw.at(at+time.Duration(s)*time.Duration(150+pick%4*100)*time.Millisecond, fmt.Sprintf("c28-storm n%d>n%d", i, j), func() {
+					spec := *mw.specs[i]
+					nets := []netip.Prefix{b}
+					if last {
+						nets = []netip.Prefix{overlayAddr(i, 0), b}
+					}
+					id := newSimIdentity(mw.ca, []cert.Version{cert.Version2}, spec.name, mw.notBefore, mw.notAfter, nets, nil, nil)
+					spec.nets, spec.id = nets, id
+					rc.Count("op.restart_storm_step", 1)
+					mw.opRestart(i, &spec)
+					if mw.nodes[i].alive && mw.nodes[j].alive {
+						mw.appSend(i, j, 0)
+					}
+				})
+			}
+			continue
+		}
 		mw.at(at, fmt.Sprintf("c28-op%d n%d", kind, i), func() {
 			nd := mw.nodes[i]
 			if !nd.alive {
